@@ -1,54 +1,11 @@
 ------------------------------ MODULE Session ------------------------------
 (***************************************************************************)
-(* A process using the library: the observable output of "generate code    *)
-(* for model m with scheme f" must be a function of (m, options) only -    *)
-(* not of the calls made earlier in the same process (C09, "histories").   *)
-(*                                                                         *)
-(* State that survives between calls in the implementation:                *)
-(*   coName[f]  the __code__.co_name of the module-level scheme function f *)
-(*              (CodeGenerator.scheme uses it as the NAME of the emitted   *)
-(*              function); get_scheme(alias) is the only writer.           *)
-(* Mutating == TRUE models the design in which get_scheme rewrites the     *)
-(* shared function (the behaviour found in the code), FALSE the repaired   *)
-(* design in which it returns a renamed copy.                              *)
+(* The model-checked instance of SessionCore.tla (state, actions and the   *)
+(* invariant C09_HistoryIndependent are defined there; SessionProof.tla    *)
+(* proves the invariant for histories of ANY length with TLAPS) plus the   *)
+(* emission of histories for the replay.                                   *)
 (***************************************************************************)
-EXTENDS Integers, Sequences, FiniteSets, TLC, Json
-
-CONSTANTS Mutating, MaxCalls
-
-Funcs == {"explicit_euler", "generalized_rush_larsen", "hybrid_rush_larsen"}
-AliasOf == [a \in {"forward_euler", "forward_explicit_euler", "euler", "explicit_euler",
-                   "forward_generalized_rush_larsen", "generalized_rush_larsen",
-                   "forward_rush_larsen", "rush_larsen", "hybrid_rush_larsen"} |->
-              CASE a \in {"forward_euler", "forward_explicit_euler", "euler", "explicit_euler"} -> "explicit_euler"
-                [] a \in {"forward_generalized_rush_larsen", "generalized_rush_larsen"} -> "generalized_rush_larsen"
-                [] OTHER -> "hybrid_rush_larsen"]
-Aliases == DOMAIN AliasOf
-
-VARIABLES coName,   \* process-global: function -> current code name
-          hist,     \* the calls made so far
-          out       \* observation of the last call: the name of the emitted function ("" if none)
-vars == <<coName, hist, out>>
-
-Init == coName = [f \in Funcs |-> f] /\ hist = <<>> /\ out = ""
-
-\* get_scheme(alias): returns a function object whose code name is the alias
-GetScheme(a) == /\ coName' = IF Mutating THEN [coName EXCEPT ![AliasOf[a]] = a] ELSE coName
-                /\ hist' = Append(hist, [call |-> "get_scheme", arg |-> a]) /\ out' = ""
-\* gotran2py.get_code(ode, scheme=[a]): add_schemes calls get_scheme(a) and emits under that name
-GetCode(a) == /\ coName' = IF Mutating THEN [coName EXCEPT ![AliasOf[a]] = a] ELSE coName
-              /\ hist' = Append(hist, [call |-> "get_code", arg |-> a]) /\ out' = a
-\* codegen.scheme(gotranx.schemes.<f>): the module-level function used directly
-SchemeDirect(f) == /\ out' = coName[f] /\ UNCHANGED coName
-                   /\ hist' = Append(hist, [call |-> "scheme_direct", arg |-> f])
-Next == /\ Len(hist) < MaxCalls
-        /\ \/ \E a \in Aliases : GetScheme(a) \/ GetCode(a)
-           \/ \E f \in Funcs : SchemeDirect(f)
-Spec == Init /\ [][Next]_vars
-
-\* the observation of a call is a function of the call alone
-Expected(c) == IF c.call = "get_code" THEN c.arg ELSE IF c.call = "scheme_direct" THEN c.arg ELSE ""
-C09_HistoryIndependent == hist # <<>> => out = Expected(hist[Len(hist)])
+EXTENDS SessionCore, TLC, Json
 
 \* histories for the replay: every history that ends in an observable call
 EmitHist == (Len(hist) = MaxCalls /\ hist[Len(hist)].call # "get_scheme") => PrintT(ToJson([hist |-> hist, expect |-> Expected(hist[Len(hist)])]))
